@@ -1,18 +1,31 @@
 use crate::{
+    cfg::{CfgNode, RegisterSet},
     parser::{HasRegisterSets, InstructionProperties, Register},
     passes::{CfgError, GenerationPass},
 };
-use std::collections::HashSet;
+use std::rc::Rc;
 
 use super::HasGenKillInfo;
+
+/// The registers that are defined on every path into a node:
+/// AND u_def[s] for all s in prev[n].
+fn u_def_in(node: &Rc<CfgNode>) -> RegisterSet {
+    node.prevs()
+        .clone()
+        .into_iter()
+        .map(|x| x.u_def())
+        .reduce(|acc, x| acc & x)
+        .unwrap_or_default()
+}
 
 pub struct LivenessPass;
 impl GenerationPass for LivenessPass {
     #[allow(clippy::too_many_lines)]
     fn run(cfg: &mut crate::cfg::Cfg) -> Result<(), Box<CfgError>> {
+        // LIVE REGISTERS
+        // ==============
+        // The sets only ever grow, so this ends.
         let mut changed = true;
-        #[allow(clippy::mutable_key_type)]
-        let mut visited = HashSet::new();
         while changed {
             changed = false;
             #[cfg(rajanmaghera_riscv_analysis_verif)]
@@ -36,6 +49,55 @@ impl GenerationPass for LivenessPass {
                     let func_exit_live_in = (node.live_out()) | func.exit().live_in();
                     changed |= func.exit().set_live_in(func_exit_live_in);
 
+                    // live_in[n] = (live_in[F_entry] & argument-registers) U (live_out[n] - kill[n])
+                    // kill[n] = caller-saved
+                    let live_in_temp = node.live_out() - node.kill_reg();
+                    let live_in = (func.entry().live_out() & Register::argument_set())
+                        | live_in_temp
+                        | node.gen_reg();
+
+                    changed |= node.set_live_in(live_in);
+                } else if node.is_ecall() {
+                    let (args, _) = node.known_ecall_signature().unwrap_or_default();
+
+                    // live_in[n] = (live_out[n] - caller-saved) U ecall_args U ecall_ins
+                    // ecall_args = X17 (a7) in every case U inputs to the ecall if known by available value analysis, otherwise empty
+                    let live_in = (node.live_out() - Register::caller_saved_set())
+                        | Register::ecall_always_argument_set()
+                        | args;
+                    changed |= node.set_live_in(live_in);
+                } else if node.is_return() {
+                    // live_in[n] = live_in[n] U gen[n]
+                    let live_in = node.live_in() | node.gen_reg();
+                    changed |= node.set_live_in(live_in);
+                } else {
+                    // live_in[n] = gen[n] U (live_out[n] - kill[n])
+                    let live_in = (node.live_out() - node.kill_reg()) | node.gen_reg();
+                    changed |= node.set_live_in(live_in);
+                }
+            }
+        }
+
+        // UNCONDITIONALLY DEFINED REGISTERS
+        // =================================
+        // A register is defined at a point if it is defined on every path
+        // that leads there. Every node starts with "all registers" and the
+        // sets only ever shrink, so this ends as well. (Computing them while
+        // the live sets are still growing, from whatever nodes happened to be
+        // visited already, lets a register that is withdrawn later travel
+        // around a loop forever.)
+        for node in cfg.iter() {
+            let _ = node.set_u_def(Register::all());
+        }
+        let mut changed = true;
+        while changed {
+            changed = false;
+            #[cfg(rajanmaghera_riscv_analysis_verif)]
+            crate::verif_hooks::sweep(crate::verif_hooks::Pass::Liveness);
+            for node in cfg.iter() {
+                #[cfg(rajanmaghera_riscv_analysis_verif)]
+                crate::verif_hooks::visit();
+                let u_def = if let Some((func, _)) = node.calls_to_from_cfg(cfg) {
                     // u_def[n] = (AND u_def[s] for all s in prev[n]) - kill[n] | (u_def[F_exit] AND return-registers)
                     // kill[n] = caller-saved
                     // NOTE: we use the UDEF_f because the udefs are all "candidates"
@@ -45,91 +107,24 @@ impl GenerationPass for LivenessPass {
                     // a garbage value.
                     // TLDR: udef -> return values are a safeguard that the value
                     // has to come from the function.
-                    let u_def = (node
-                        .prevs()
-                        .clone()
-                        .into_iter()
-                        .filter(|x| visited.contains(x))
-                        .map(|x| x.u_def())
-                        .reduce(|acc, x| acc & x)
-                        .unwrap_or_default()
-                        - Register::caller_saved_set())
-                        | (func.exit().u_def() & Register::return_set());
-
-                    // live_in[n] = (live_in[F_entry] & argument-registers) U (live_out[n] - kill[n])
-                    // kill[n] = caller-saved
-                    let live_in_temp = node.live_out() - node.kill_reg();
-                    let live_in = (func.entry().live_out() & Register::argument_set())
-                        | live_in_temp
-                        | node.gen_reg();
-
-                    changed |= node.set_live_in(live_in);
-                    changed |= node.set_u_def(u_def);
+                    (u_def_in(&node) - Register::caller_saved_set())
+                        | (func.exit().u_def() & Register::return_set())
                 } else if node.is_ecall() {
-                    let (args, rets) = node.known_ecall_signature().unwrap_or_default();
+                    let (_, rets) = node.known_ecall_signature().unwrap_or_default();
 
                     // u_def[n] = (AND u_def[s] for all s in prev[n]) - caller-saved | ecall_returns
-                    let u_def = (node
-                        .prevs()
-                        .clone()
-                        .into_iter()
-                        .filter(|x| visited.contains(x))
-                        .map(|x| x.u_def())
-                        .reduce(|acc, x| acc & x)
-                        .unwrap_or_default()
-                        - Register::caller_saved_set())
-                        | rets;
-
-                    // live_in[n] = (live_out[n] - caller-saved) U ecall_args U ecall_ins
-                    // ecall_args = X17 (a7) in every case U inputs to the ecall if known by available value analysis, otherwise empty
-                    let live_in = (node.live_out() - Register::caller_saved_set())
-                        | Register::ecall_always_argument_set()
-                        | args;
-                    changed |= node.set_live_in(live_in);
-                    changed |= node.set_u_def(u_def);
+                    (u_def_in(&node) - Register::caller_saved_set()) | rets
                 } else if node.is_return() {
-                    // live_in[n] = live_in[n] U gen[n]
-                    let live_in = node.live_in() | node.gen_reg();
-                    changed |= node.set_live_in(live_in);
-
                     // u_def[n] = AND u_def[s] for all s in prev[n]
-                    let u_def = node
-                        .prevs()
-                        .clone()
-                        .into_iter()
-                        .filter(|x| visited.contains(x))
-                        .map(|x| x.u_def())
-                        .reduce(|acc, x| acc & x)
-                        .unwrap_or_default();
-                    changed |= node.set_u_def(u_def);
+                    u_def_in(&node)
                 } else if node.is_function_entry() {
-                    // live_in[n] = gen[n] U (live_out[n] - kill[n])
-                    let live_in = (node.live_out() - node.kill_reg()) | node.gen_reg();
-
                     // u_def[n] = live_in[n] AND argument-registers
-                    let u_def = live_in & Register::argument_set();
-
-                    changed |= node.set_live_in(live_in);
-                    changed |= node.set_u_def(u_def);
+                    node.live_in() & Register::argument_set()
                 } else {
                     // u_def[n] = AND u_def[s] for all s in prev[n] | kill[n]
-                    let u_def = (node
-                        .prevs()
-                        .clone()
-                        .into_iter()
-                        .filter(|x| visited.contains(x))
-                        .map(|x| x.u_def())
-                        .reduce(|acc, x| acc & x)
-                        .unwrap_or_default())
-                        | node.kill_reg();
-
-                    // live_in[n] = gen[n] U (live_out[n] - kill[n])
-                    let live_in = (node.live_out() - node.kill_reg()) | node.gen_reg();
-
-                    changed |= node.set_live_in(live_in);
-                    changed |= node.set_u_def(u_def);
-                }
-                visited.insert(node);
+                    u_def_in(&node) | node.kill_reg()
+                };
+                changed |= node.set_u_def(u_def);
             }
         }
         Ok(())
